@@ -4,7 +4,7 @@
 // Enumerated: every Go function reachable from the global environment, the
 // string metatable, file/coroutine/context objects and the closures library
 // functions return (found by a graph walk at check time) x all 16 subsets of
-// required flags x an IO-oriented argument pool x 10 call spellings x the two
+// required flags x an IO-oriented argument pool x 11 call spellings x the two
 // ways of entering a context (RuntimeContextDef.RequiredFlags and
 // runtime.callcontext{flags=...}).
 //
@@ -47,7 +47,16 @@ var spellings = []spelling{
 	6: {"coroutine", "coroutine"},  // inside a coroutine body
 	7: {"co-body", "coroutine"},    // f is the coroutine body
 	8: {"load", "load"},            // load("return f(...)") with f a global of the chunk
-	9: {"gc", "finalizer"},         // called by a __gc finalizer that runs inside the context when it ends
+	9: {"gc", "finalizer"},         // called by a __gc finalizer created inside the context
+	10: {"nested", "nested"},       // called inside a nested runtime.callcontext({kill={cpu=...}}) (requires cpusafe too)
+}
+
+// effective: the flags in force where the spelling makes the call.
+func effective(required rt.ComplianceFlags, sp int) rt.ComplianceFlags {
+	if sp == 10 {
+		return required | rt.ComplyCpuSafe
+	}
+	return required
 }
 
 // ---- reference model: what the property prescribes
@@ -145,7 +154,7 @@ func runOne(funcs []fnRec, f *fnRec, required rt.ComplianceFlags, tp tuple, sp i
 	if err != nil {
 		panic(fmt.Sprintf("c08 harness: cannot resolve %s: %v", f.name, err))
 	}
-	e := refExpect(f.declared, required)
+	e := refExpect(f.declared, effective(required, sp))
 	bargs := spellArgs(mc, fv, tp, sp, e.noOutside && !e.mustRefuse)
 
 	// set-up that may itself touch the sentinel: producer calls, snippets
@@ -345,7 +354,7 @@ func main() {
 		ID:    "C08",
 		Level: "model_checking",
 		Rule: "every Go function found by walking globals, package.loaded, the string/file/context metatables and closures returned by library calls " +
-			"x 16 required-flag subsets x IO argument pool x 10 call spellings, each entered through RuntimeContextDef and through runtime.callcontext; " +
+			"x 16 required-flag subsets x IO argument pool x 11 call spellings, each entered through RuntimeContextDef and through runtime.callcontext; " +
 			"non-trivial = the property constrains the case (a required flag is undeclared, or iosafe is required); distinct = distinct observation summaries",
 		Assumptions: []string{
 			"declared flags are read from GoFunction.safetyFlags by reflection (read-only); the gate is judged against them",
@@ -418,7 +427,7 @@ func families(tier string) []*core.Family {
 	run := func(i uint64) core.Outcome {
 		c := decode(i)
 		f := &funcs[c.fn]
-		e := refExpect(f.declared, c.required)
+		e := refExpect(f.declared, effective(c.required, c.sp))
 		if f.danger && !e.mustRefuse {
 			return core.Outcome{Skipped: true}
 		}
@@ -567,6 +576,8 @@ func luaRepro(f *fnRec, required rt.ComplianceFlags, tp tuple, sp int) string {
 		call = "return load(\"return f(...)\", \"=c08\", \"t\", {f = f})(" + args + ")"
 	case 9:
 		call = "setmetatable({}, {__gc = function() print(pcall(f" + map[bool]string{true: ", ", false: ""}[args != ""] + args + ")) end})"
+	case 10:
+		call = "return runtime.callcontext({kill = {cpu = 100000000}}, f" + map[bool]string{true: ", ", false: ""}[args != ""] + args + ")"
 	}
 	fmt.Fprintf(&sb, "print(runtime.callcontext({flags = %q}, function()\n  %s\nend))", strings.Join(required.Names(), " "), call)
 	return sb.String()
